@@ -1,7 +1,7 @@
 from numbers import Integral
 
 import numpy as np
-from sklearn.metrics.pairwise import PAIRWISE_KERNEL_FUNCTIONS, PAIRWISE_DISTANCE_FUNCTIONS
+from sklearn.metrics.pairwise import PAIRWISE_KERNEL_FUNCTIONS, PAIRED_DISTANCES
 from sklearn.neural_network._stochastic_optimizers import AdamOptimizer, SGDOptimizer
 from sklearn.utils._param_validation import Interval, StrOptions
 from sklearn.utils.extmath import softmax
@@ -356,7 +356,7 @@ class MLPWasserstein(MLPModel):
     """
     _parameter_constraints: dict = {
         **MLPModel._parameter_constraints,
-        "metric": [StrOptions(set(list(PAIRWISE_DISTANCE_FUNCTIONS) + ["precomputed"])), callable],
+        "metric": [StrOptions(set(list(PAIRED_DISTANCES) + ["precomputed"]))],
         "metric_params": [dict, None],
         "ovo": [bool],
     }
